@@ -105,6 +105,7 @@ def _fuzz_job(st, job):
     variant, seed, start, count, maxlen, stack_kb, payload = job
     res = core.Result("C03", "", 0)
     h = core.Harness(st[variant].binary, stack_kb=stack_kb)
+    h.ignore_watchdog_flag = True   # every shard is examined on its own (a hang is this property's subject)
     args = [seed, start, count, maxlen]
     try:
         r = h.json("fuzz", args, payload)
@@ -126,7 +127,9 @@ def _fuzz_job(st, job):
             if idx is None:
                 res.inconclusive.append("fuzz shard did not answer within the watchdog and the input in flight could not be identified")
                 return res
-            g = core.Harness(st[variant].binary).json("fuzz", [seed, idx, 1, maxlen, "gen"], payload)
+            gh = core.Harness(st[variant].binary)
+            gh.ignore_watchdog_flag = True
+            g = gh.json("fuzz", [seed, idx, 1, maxlen, "gen"], payload)
             one = (" ".join(["fuzz", str(seed), str(idx), "1", str(maxlen), "only", str(len(payload))]) + "\n").encode() + payload
             try:
                 subprocess.run([st[variant].binary], input=one, capture_output=True, timeout=HANG_S)
@@ -233,6 +236,7 @@ def _shape_job(st, job):
     res = core.Result("C03", "", 0)
     mode, text = families()[fam](k)
     h = core.Harness(st[variant].binary, stack_kb=stack_kb)
+    h.ignore_watchdog_flag = True
     wit = {"op": "parse", "variant": variant, "mode": mode, "offset": 0, "family": fam, "k": k, "stack_kb": stack_kb, "text": text if len(text) < 4000 else None}
     out = {"fam": fam, "k": k, "variant": variant, "steps": None, "n": len(text), "died": False}
     try:
@@ -259,7 +263,11 @@ def _shape_job(st, job):
             res.add("unlisted:lex-unbounded", {"family": fam, "k": k, "n": lr["n"]}, wit)
     except core.HarnessDied as e:
         out["died"] = True
-        if verdict:
+        if e.rc == "watchdog":
+            # one pathological shape of a few kilobytes to a few megabytes did not come back within the watchdog; the
+            # step counters of the shapes that did come back decide the complexity clause, this one stays undecided
+            res.inconclusive.append("shape %s k=%d (%s): no reply within the watchdog" % (fam, k, variant))
+        elif verdict:
             res.add("unlisted:process-died", {"family": fam, "k": k, "rc": e.rc, "variant": variant, "stack_kb": stack_kb}, wit)
         else:
             res.counters["beyond-bounds-died:%s@%d" % (fam, k)] += 1
